@@ -89,6 +89,32 @@ func RunIso(c Case) int {
 		rctx, cancel := context.WithTimeout(ctx, 5*time.Second)
 		defer cancel()
 		_ = s.SendMessage(rctx, r)
+		// and a question of the server's own, whose answer comes back through the response-command handler
+		q := &lime.RequestCommand{}
+		q.ID = "rq:" + m.ID
+		q.Method = lime.CommandMethodGet
+		q.SetURIString("/whoami")
+		go func() { // (not from inside the handler: both ends of an unbuffered session would wait for each other)
+			qctx, qcancel := context.WithTimeout(context.Background(), 5*time.Second)
+			defer qcancel()
+			_ = s.SendRequestCommand(qctx, q)
+		}()
+		return nil
+	})
+	smux.ResponseCommandHandlerFunc(nil, func(ctx context.Context, c *lime.ResponseCommand, s lime.Sender) error {
+		who, i := splitID(strings.TrimPrefix(c.ID, "rq:"))
+		sid, _ := lime.ContextSessionID(ctx)
+		remote, _ := lime.ContextSessionRemoteNode(ctx)
+		local, _ := lime.ContextSessionLocalNode(ctx)
+		mu.Lock()
+		k, ok := known[who]
+		reg := registered[who]
+		mu.Unlock()
+		res := "foreign"
+		if ok && sid == k.sid && remote == reg && local == srvNode {
+			res = "own"
+		}
+		l.log(Event{K: "dispatch", G: who, I: i, Kind: "resp", Res: res})
 		return nil
 	})
 	var srv *lime.Server
@@ -126,6 +152,11 @@ func RunIso(c Case) int {
 			default:
 			}
 			return nil
+		})
+		upMux.RequestCommandHandlerFunc(nil, func(c2 context.Context, c *lime.RequestCommand, s lime.Sender) error {
+			actx, acancel := context.WithTimeout(c2, 3*time.Second)
+			defer acancel()
+			return s.SendResponseCommand(actx, c.SuccessResponse())
 		})
 		lctx, lcancel := context.WithCancel(hctx) // descends from the handler's context
 		go func() { _ = upMux.ListenClient(lctx, up) }()
@@ -233,6 +264,11 @@ func RunIso(c Case) int {
 				l.log(Event{K: "reply", G: name, I: i, Res: res})
 				got <- struct{}{}
 				return nil
+			})
+			cmux.RequestCommandHandlerFunc(nil, func(ctx context.Context, c *lime.RequestCommand, s lime.Sender) error {
+				actx, acancel := context.WithTimeout(ctx, 3*time.Second)
+				defer acancel()
+				return s.SendResponseCommand(actx, c.SuccessResponse())
 			})
 			lctx, lcancel := context.WithCancel(ctx)
 			go func() { _ = cmux.ListenClient(lctx, cc) }()
